@@ -74,6 +74,8 @@ def known_compile_panic(msg):
         return "F5 FreeUnique(.._curried) shrinker.rs"
     if "FreeUnique" in msg and "_id_" in msg:
         return "F4 FreeUnique(<var>_id_N) shrinker.rs"
+    if "EvaluationFailure" in msg and "optimize/shrinker.rs" in msg:
+        return "F8 constant folding of a failing builtin call (shrinker.rs unwrap)"
     if "TryFromBigIntError" in msg and "machine/runtime.rs" in msg:
         return "constant folding of a bytearray builtin with an out-of-range integer (C02/C10)"
     return None
@@ -90,9 +92,10 @@ def main(argv=None):
     ap.add_argument("--dump", default=None)
     ap.add_argument("--allow-hazard", action="store_true")
     ap.add_argument("--include-known", action="store_true", help="also generate the shapes that trigger recorded findings (FINDINGS.md)")
+    ap.add_argument("--focus", default=None, help="bias the type pool (lists)")
     ap.add_argument("--shards", type=int, default=None)
     a = ap.parse_args(argv)
-    opts = {"allow_hazard": a.allow_hazard, "include_known": a.include_known}
+    opts = {"allow_hazard": a.allow_hazard, "include_known": a.include_known, "focus": a.focus}
 
     t0 = time.time()
     cs = list(cases(a.seed, a.n, a.args, a.size, opts))
@@ -160,9 +163,13 @@ def main(argv=None):
                     explained = (lz[0] == "ok" and o[0] == "ok" and o[1] == lz[1])
                     tags = sorted(f for f in c["features"] if f.startswith("known:"))
                     why = None
+                    if o[0] == "abort" and o[1] not in ("EvaluationFailure", "DivideByZero", "EmptyList", "DeserialisationError", "ByteStringOutOfBounds", "OutsideByteBounds", "OverflowError", "OutsideNaturalBounds"):
+                        why = "machine error %s" % o[1]
                     if explained:
                         st["lazy_explained"] += 1
                         why = "call-by-need"
+                    elif why:
+                        pass
                     elif tags:
                         st["in_known_shape_modules"] = st.get("in_known_shape_modules", 0) + 1
                         why = "module contains " + ",".join(tags)
